@@ -22,7 +22,8 @@ class CodePoints(Part):
     name = "codepoints"
     custom = True
     exhaustive = True
-    rule = ("all 1,114,112 code points (sharded), each queried twice (cold then after the whole shard, i.e. after LRU eviction); "
+    rule = ("all 1,114,112 code points (sharded), each queried twice (cold then after the whole shard, i.e. after LRU eviction) and once inside a Segment ('a' + c + 'b': Segment.cell_length; "
+            "adjust_line_length for all zero-width and every 17th wide code point); "
             "non-trivial = code point outside the ASCII shortcut that lies in a table row (width != default)")
     budget = {"quick": (16, 1), "thorough": (16, 1)}
 
@@ -78,8 +79,29 @@ class CodePoints(Part):
                         break
                 if bad:
                     break
+        # the segment layer measures through its own entry point: every code point inside an otherwise plain segment, and shaping of the non-default ones
+        if not bad:
+            from rich.segment import Segment
+
+            for cp in range(lo, hi):
+                if 0xD800 <= cp <= 0xDFFF or W[cp] < 0:
+                    continue
+                seg = Segment("a" + chr(cp) + "b")
+                n += 1
+                if sut(lambda: seg.cell_length) != 2 + W[cp]:
+                    bad = (cp, seg.cell_length - 2, W[cp], "segment")
+                    break
+                if W[cp] != 1 and (W[cp] == 0 or cp % 17 == 0):
+                    for length in (2, 3, 5):
+                        out = sut(Segment.adjust_line_length, [seg], length, None, True)
+                        n += 1
+                        if sum(OC.width(x.text) for x in out) != length:
+                            bad = (cp, "adjust_line_length(%d) -> %r" % (length, [x.text for x in out]), W[cp], "segment-shape")
+                            break
+                    if bad:
+                        break
         if bad:
-            ctx.violation("lookup", "C13/lookup/codepoint", "U+%04X: rich says %r, table scan says %r (pass %r)" % bad)
+            ctx.violation("lookup", "C13/lookup/%s" % ("segment" if str(bad[3]).startswith("segment") else "codepoint"), "U+%04X: rich says %r, table scan says %r (pass %r)" % bad)
             spec = {"cp": bad[0]}
         else:
             spec = {"cp": lo}
@@ -97,6 +119,16 @@ class CodePoints(Part):
         got = sut(RC.get_character_cell_size, chr(cp))
         if got != OC.table()[cp]:
             ctx.violation("lookup", "C13/lookup/codepoint", "U+%04X: rich %r, table %r" % (cp, got, OC.table()[cp]))
+        from rich.segment import Segment
+
+        if not 0xD800 <= cp <= 0xDFFF and OC.table()[cp] >= 0:
+            seg = Segment("a" + chr(cp) + "b")
+            if sut(lambda: seg.cell_length) != 2 + OC.table()[cp]:
+                ctx.violation("lookup", "C13/lookup/segment", "Segment('a' + U+%04X + 'b').cell_length = %r, table says %r" % (cp, seg.cell_length, 2 + OC.table()[cp]))
+            for length in (2, 3, 5):
+                out = sut(Segment.adjust_line_length, [seg], length, None, True)
+                if sum(OC.width(x.text) for x in out) != length:
+                    ctx.violation("lookup", "C13/lookup/segment", "adjust_line_length of 'a' + U+%04X + 'b' to %d -> %r" % (cp, length, [x.text for x in out]))
 
 
 # --------------------------------------------------------------------------------------------- (b)
